@@ -1,0 +1,304 @@
+//go:build verif
+// +build verif
+
+// Add-only verification shim for property C03 (request frames on the wire).  Thin exported
+// wrappers around the unexported request structs and their buildFrame methods: the harness fills a
+// VerifC03Request, the shim copies it field by field into the real write*Frame struct, builds a
+// framer exactly as Conn.exec does (newFramer, optional trace()) and calls buildFrame.
+package gocql
+
+import (
+	"context"
+	"fmt"
+	"strings"
+
+	"github.com/gocql/gocql/internal/lru"
+	"github.com/gocql/gocql/internal/streams"
+)
+
+// request kinds
+const (
+	VerifC03Startup = iota
+	VerifC03Options
+	VerifC03AuthResponse
+	VerifC03Register
+	VerifC03Query
+	VerifC03Prepare
+	VerifC03Execute
+	VerifC03Batch
+)
+
+// outcome classes of VerifC03Build
+const (
+	VerifC03OK = iota
+	VerifC03ErrFrameTooBig
+	VerifC03ErrBatchNamed
+	VerifC03ErrOther
+	VerifC03PanicPayloadVersion
+	VerifC03PanicKeyspaceVersion
+	VerifC03PanicNoCompressor
+	VerifC03PanicOther
+)
+
+type VerifC03Value struct {
+	Value   []byte // nil = null
+	Name    string
+	IsUnset bool
+}
+
+type VerifC03Params struct {
+	Consistency           uint16
+	SkipMeta              bool
+	Values                []VerifC03Value
+	PageSize              int
+	PagingState           []byte
+	SerialConsistency     uint16
+	DefaultTimestamp      bool
+	DefaultTimestampValue int64
+	Keyspace              string
+}
+
+type VerifC03Stmt struct {
+	PreparedID []byte
+	Statement  string
+	Values     []VerifC03Value
+}
+
+type VerifC03Request struct {
+	Kind          int
+	Opts          map[string]string // STARTUP
+	Data          []byte            // AUTH_RESPONSE (nil = null token)
+	Events        []string          // REGISTER
+	Statement     string            // QUERY, PREPARE
+	Keyspace      string            // PREPARE
+	PreparedID    []byte            // EXECUTE
+	Params        VerifC03Params    // QUERY, EXECUTE
+	BatchType     byte              // BATCH ...
+	Statements    []VerifC03Stmt
+	Consistency   uint16
+	SerialCons    uint16
+	DefaultTS     bool
+	DefaultTSVal  int64
+	CustomPayload map[string][]byte // QUERY, PREPARE, EXECUTE, BATCH
+}
+
+func verifC03Values(vs []VerifC03Value) []queryValues {
+	if vs == nil {
+		return nil
+	}
+	out := make([]queryValues, len(vs))
+	for i, v := range vs {
+		out[i] = queryValues{value: v.Value, name: v.Name, isUnset: v.IsUnset}
+	}
+	return out
+}
+
+func verifC03Params(p *VerifC03Params) queryParams {
+	return queryParams{
+		consistency:           Consistency(p.Consistency),
+		skipMeta:              p.SkipMeta,
+		values:                verifC03Values(p.Values),
+		pageSize:              p.PageSize,
+		pagingState:           p.PagingState,
+		serialConsistency:     SerialConsistency(p.SerialConsistency),
+		defaultTimestamp:      p.DefaultTimestamp,
+		defaultTimestampValue: p.DefaultTimestampValue,
+		keyspace:              p.Keyspace,
+	}
+}
+
+func verifC03Builder(r *VerifC03Request) frameBuilder {
+	switch r.Kind {
+	case VerifC03Startup:
+		return &writeStartupFrame{opts: r.Opts}
+	case VerifC03Options:
+		return &writeOptionsFrame{}
+	case VerifC03AuthResponse:
+		return &writeAuthResponseFrame{data: r.Data}
+	case VerifC03Register:
+		return &writeRegisterFrame{events: r.Events}
+	case VerifC03Query:
+		return &writeQueryFrame{statement: r.Statement, params: verifC03Params(&r.Params), customPayload: r.CustomPayload}
+	case VerifC03Prepare:
+		return &writePrepareFrame{statement: r.Statement, keyspace: r.Keyspace, customPayload: r.CustomPayload}
+	case VerifC03Execute:
+		return &writeExecuteFrame{preparedID: r.PreparedID, params: verifC03Params(&r.Params), customPayload: r.CustomPayload}
+	case VerifC03Batch:
+		st := make([]batchStatment, len(r.Statements))
+		for i, s := range r.Statements {
+			st[i] = batchStatment{preparedID: s.PreparedID, statement: s.Statement, values: verifC03Values(s.Values)}
+		}
+		return &writeBatchFrame{typ: BatchType(r.BatchType), statements: st, consistency: Consistency(r.Consistency),
+			serialConsistency: SerialConsistency(r.SerialCons), defaultTimestamp: r.DefaultTS, defaultTimestampValue: r.DefaultTSVal,
+			customPayload: r.CustomPayload}
+	}
+	panic("verif: unknown request kind")
+}
+
+// VerifC03Build builds the frame of request r the way Conn.exec does: newFramer(compressor, version),
+// framer.trace() when tracing, req.buildFrame(framer, stream).  It returns a copy of framer.buf, the
+// outcome class and the error / panic text.
+func VerifC03Build(version byte, compressor Compressor, tracing bool, stream int, r *VerifC03Request) (out []byte, class int, msg string) {
+	req := verifC03Builder(r)
+	framer := newFramer(compressor, version)
+	if tracing {
+		framer.trace()
+	}
+	defer func() {
+		if p := recover(); p != nil {
+			out = nil
+			msg = fmt.Sprint(p)
+			switch msg {
+			case "Custom payload is not supported with version V3 or less":
+				class = VerifC03PanicPayloadVersion
+			case "the keyspace can only be set with protocol 5 or higher":
+				class = VerifC03PanicKeyspaceVersion
+			case "compress flag set with no compressor":
+				class = VerifC03PanicNoCompressor
+			default:
+				class = VerifC03PanicOther
+			}
+		}
+	}()
+	err := req.buildFrame(framer, stream)
+	if err != nil {
+		switch {
+		case err == ErrFrameTooBig:
+			return nil, VerifC03ErrFrameTooBig, err.Error()
+		case strings.HasPrefix(err.Error(), "gocql: named query values are not supported in batches"):
+			return nil, VerifC03ErrBatchNamed, err.Error()
+		}
+		return nil, VerifC03ErrOther, err.Error()
+	}
+	return append([]byte(nil), framer.buf...), VerifC03OK, ""
+}
+
+// VerifC03BatchGuard runs Conn.executeBatch on a connection of the given protocol version with an
+// empty batch and reports whether it was refused with ErrUnsupported before any frame was built
+// (conn.go: protocol 1 has no BATCH message).  Only version 1 may be passed: for any other version
+// executeBatch goes on to use the (absent) network connection.
+func VerifC03BatchGuard(version byte) bool {
+	if version != protoVersion1 {
+		return false
+	}
+	c := &Conn{version: version}
+	refused := false
+	func() {
+		defer func() { _ = recover() }() // an unguarded executeBatch runs into the absent connection
+		it := c.executeBatch(context.Background(), &Batch{Type: LoggedBatch})
+		refused = it != nil && it.err == ErrUnsupported
+	}()
+	return refused
+}
+
+// VerifC03MaxFrameSize re-exports the size limit applied by framer.finish.
+const VerifC03MaxFrameSize = maxFrameSize
+
+// ---- connection level: how conn.go fills the request structs ----------------------------------------
+//
+// VerifC03Conn is a Conn with no network behind it: its writer records the frame Conn.exec hands to it
+// and reports "context canceled, nothing written", which makes exec release the stream and return.
+// Conn.executeQuery / executeBatch / UseKeyspace / prepareStatement run unchanged on top of it, driven
+// through the public Query / Batch API of a minimal Session.
+
+type verifC03Capture struct{ frames [][]byte }
+
+func (w *verifC03Capture) writeContext(ctx context.Context, p []byte) (int, error) {
+	w.frames = append(w.frames, append([]byte(nil), p...))
+	return 0, context.Canceled
+}
+
+type VerifC03Conn struct {
+	c *Conn
+	s *Session
+	w *verifC03Capture
+}
+
+func VerifC03NewConn(version byte, compressor Compressor, keyspace string, disableSkipMetadata bool) *VerifC03Conn {
+	s := &Session{cons: Quorum, prefetch: 0.25, logger: &defaultLogger{}}
+	s.cfg.DisableSkipMetadata = disableSkipMetadata
+	s.cfg.ProtoVersion = int(version)
+	s.stmtsLRU = &preparedLRU{lru: lru.New(1000)}
+	w := &verifC03Capture{}
+	c := &Conn{
+		w:               w,
+		streams:         streams.New(int(version)),
+		calls:           make(map[int]*callReq),
+		compressor:      compressor,
+		version:         version,
+		currentKeyspace: keyspace,
+		host:            &HostInfo{hostId: "verif-c03-host"},
+		session:         s,
+		ctx:             context.Background(),
+		logger:          &defaultLogger{},
+	}
+	return &VerifC03Conn{c: c, s: s, w: w}
+}
+
+// Session gives access to the public Query / NewBatch API.
+func (vc *VerifC03Conn) Session() *Session { return vc.s }
+
+// Prepared registers stmt as already prepared on this connection, with ncols blob-typed bind markers.
+func (vc *VerifC03Conn) Prepared(stmt string, id []byte, ncols int) {
+	cols := make([]ColumnInfo, ncols)
+	for i := range cols {
+		cols[i] = ColumnInfo{Keyspace: "ks", Table: "t", Name: fmt.Sprintf("c%d", i), TypeInfo: NativeType{proto: vc.c.version, typ: TypeBlob}}
+	}
+	done := make(chan struct{})
+	close(done)
+	key := vc.s.stmtsLRU.keyFor(vc.c.host.HostID(), vc.c.currentKeyspace, stmt)
+	vc.s.stmtsLRU.add(key, &inflightPrepare{done: done, preparedStatment: &preparedStatment{
+		id:      id,
+		request: preparedMetadata{resultMetadata: resultMetadata{columns: cols, colCount: ncols, actualColCount: ncols}},
+	}})
+}
+
+func (vc *VerifC03Conn) take() [][]byte {
+	f := vc.w.frames
+	vc.w.frames = nil
+	return f
+}
+
+func verifC03Recover(msg *string) {
+	if p := recover(); p != nil {
+		*msg = "panic: " + fmt.Sprint(p)
+	}
+}
+
+// ExecQuery runs Conn.executeQuery and returns the frames handed to the writer and the error text.
+func (vc *VerifC03Conn) ExecQuery(q *Query) (frames [][]byte, msg string) {
+	defer func() { frames = vc.take() }()
+	defer verifC03Recover(&msg)
+	it := vc.c.executeQuery(context.Background(), q)
+	if it != nil && it.err != nil {
+		msg = it.err.Error()
+	}
+	return
+}
+
+// ExecBatch runs Conn.executeBatch.
+func (vc *VerifC03Conn) ExecBatch(b *Batch) (frames [][]byte, msg string) {
+	defer func() { frames = vc.take() }()
+	defer verifC03Recover(&msg)
+	it := vc.c.executeBatch(context.Background(), b)
+	if it != nil && it.err != nil {
+		msg = it.err.Error()
+	}
+	return
+}
+
+// UseKeyspace runs Conn.UseKeyspace.
+func (vc *VerifC03Conn) UseKeyspace(ks string) (frames [][]byte, msg string) {
+	defer func() { frames = vc.take() }()
+	defer verifC03Recover(&msg)
+	if err := vc.c.UseKeyspace(ks); err != nil {
+		msg = err.Error()
+	}
+	return
+}
+
+// InUse reports the stream ids still reserved (0 after every capture: exec releases the stream when
+// nothing was written).
+func (vc *VerifC03Conn) InUse() int {
+	return vc.c.streams.NumStreams - 1 - vc.c.streams.Available()
+}
